@@ -85,12 +85,14 @@ contract(f"{V}::FP2Value.wp_nominator", "wp_nominator", vars={"m": INT, "x": FP}
 # key / attestation codecs, which are outside the verifier's reach (hex-string formatting of big integers, key generation with
 # probabilistic primality tests, modular exponentiation loops over symbolic exponents).
 native("honest-proof-and-codecs", "natives/c18_protocol.py",
-       bound="quick: 10 fresh 32-bit-prime keys x random values (0..64 bytes), format id_metadata, all challenges answered honestly, "
-             "4 foreign values each; 230 integers for the codecs.  thorough: 3 formats x 6 keys",
+       bound="quick: 6 fresh keys for format id_metadata + 1 each for the sha256 / sha512 formats x random values (0..64 bytes), all "
+             "challenges answered honestly, 4 foreign values each; one range proof checked against a containing and a non-containing "
+             "range in both orders on one attestation object; 230 integers for the codecs; exponent sampling for 7 primes.  "
+             "thorough: 3 formats x 6 keys, 3 range proofs",
        functions=["ipv8/attestation/wallet/primitives/structs.py::ipack", "ipv8/attestation/wallet/primitives/structs.py::iunpack",
                   "ipv8/attestation/wallet/primitives/boneh.py::encode", "ipv8/attestation/wallet/primitives/boneh.py::decode",
                   "ipv8/attestation/wallet/bonehexact/algorithm.py::BonehExactAlgorithm.certainty"],
-       args=[10], note="true value scores >= 0.99 after all challenges, a value with another bit-pair profile scores 0, keys and "
+       args=[6], note="true value scores >= 0.99 after all challenges, a value with another bit-pair profile scores 0, keys and "
                        "attestations survive serialisation, decode(encode(m)) == m")
 
 
